@@ -6,9 +6,9 @@
    Tree.     `CN p maxd pard scale children` is a `node<P>`: p = the sample index of node.p,
              maxd = max_dist, pard = parent_dist, children in vector order.  A leaf has no
              children (num_children == 0).  The tree the query runs on is the REAL tree, dumped
-             by the harness; its invariants are Knn/CoverTree_Proof.ct_inv, decided by ct_inv_b
-             below and checked on every dumped tree.  (batch_create / batch_insert — pow, log,
-             get_scale — are not modelled.)
+             by the harness; its invariants are decided by ct_inv_b below and checked on every
+             dumped tree.  (batch_create / batch_insert are modelled in CoverTree_Build_Model.v and
+             proved to establish ct_inv_b in CoverTree_Build_Proof.v.)
    Numbers.  Distances are integers (Knn_Spec.v).  std::numeric_limits<double>::max() in the
              upper-bound vector is `None` (+infinity): the harness inputs are far below DBL_MAX,
              so DBL_MAX + x == DBL_MAX, x <= DBL_MAX and x < DBL_MAX hold for every distance x.
